@@ -33,8 +33,9 @@ def interval_illformed_value(b, e):
 
 
 def interval_illformed_dollar(b, e):
-    """`$` on the begin position without `$` on the end position (and not the empty-segment case b = 0)"""
-    return z3.And(b.v <= e.v, b.v != 0, b.last, z3.Not(e.last))
+    """`$` only on the last position of a segment: `$` on the begin position requires the end position to be that same last position
+    (b != 0: the empty-segment case 0$ is read as 'first position')"""
+    return z3.And(b.v <= e.v, b.v != 0, b.last, z3.Or(z3.Not(e.last), e.v != b.v))
 
 
 def is_containment(st1, st2):
